@@ -255,6 +255,65 @@ theorem reads_deliver_data_then_stream (ts : List Tok) (h : WF ts) (segs sock : 
     simp only [List.take_length] at h1
     rw [h1]; simp
 
+/-! ## the read size -/
+
+/-- `initial_buffer_conservation`: for every read size `n ≥ 1`, every buffer content and every
+later socket stream (in any chunking), the concatenation of the successive `Read(n)` results is
+the buffered data followed by the later stream — nothing lost, nothing added, nothing reordered.
+It holds for the code as it is (`.whole`: the first read hands out the whole `initialBuf`, ignoring
+`n`) and for the other correct design (`.keepRest`: at most `n` bytes per read, the rest is kept).
+`k` is any number of reads that is enough to drain (`Conn.size`). -/
+theorem initial_buffer_conservation (p : BufPolicy) (hp : p ≠ .dropRest) (n : Nat) (hn : 1 ≤ n)
+    (t : Conn) (k : Nat) (hk : t.size ≤ k) :
+    (Conn.readsN p n k t).flatten = t.initialBuf ++ t.sock.flatten :=
+  readsN_conserve p hp n hn k t hk
+
+/-- the code as it is: the first `Read(n)` returns the whole buffer even when it is longer than `n` -/
+theorem first_read_ignores_size (n : Nat) (t : Conn) (h : t.initialBuf ≠ []) :
+    (t.readN .whole n).1 = some t.initialBuf ∧ (t.readN .whole n).2.initialBuf = [] := by
+  have hlen : t.initialBuf.length > 0 := by
+    cases hb : t.initialBuf with
+    | nil => exact absurd hb h
+    | cons x xs => simp
+  simp [Conn.readN, hlen]
+
+/-- end to end for the code as it is: after an opening `ts` (in any segmentation) and for every read
+size, the reads deliver exactly the opening's data followed by the later stream. -/
+theorem reads_deliver_all_any_size (ts : List Tok) (h : WF ts) (segs sock : List Bytes)
+    (hs : segs.flatten = encode ts) (n : Nat) (hn : 1 ≤ n) (k : Nat)
+    (hk : (Conn.mk (delivered ts) sock).size ≤ k) :
+    (Conn.readsN .whole n k ⟨(negotiateSegs {} segs).data, sock⟩).flatten =
+      delivered ts ++ sock.flatten := by
+  rw [segmented_spec ts h segs hs]
+  exact initial_buffer_conservation .whole (by decide) n hn _ k hk
+
+/-- non-vacuity: 5 buffered bytes, read size 2, socket chunks of 3 and 1 bytes: 9 reads suffice -/
+example : (Conn.mk [1, 2, 3, 4, 5] [[6, 7, 8], [9]]).size ≤ 11 ∧
+    Conn.readsN .keepRest 2 11 ⟨[1, 2, 3, 4, 5], [[6, 7, 8], [9]]⟩ = [[1, 2], [3, 4], [5], [6, 7], [8], [9]] ∧
+    Conn.readsN .whole 2 11 ⟨[1, 2, 3, 4, 5], [[6, 7, 8], [9]]⟩ = [[1, 2, 3, 4, 5], [6, 7], [8], [9]] := by
+  decide
+
+/-- negative witness, "copy `n` bytes, then drop the buffer": whenever more than `n` bytes were
+buffered during the negotiation, no number of reads delivers them all. -/
+theorem copy_then_drop_loses (n : Nat) (buf : Bytes) (h : n < buf.length) (k : Nat) :
+    (Conn.readsN .dropRest n k ⟨buf, []⟩).flatten ≠ buf ++ ([] : List Bytes).flatten := by
+  intro heq
+  have hlen : buf.length > 0 := by omega
+  have hle : (Conn.readsN .dropRest n k ⟨buf, []⟩).flatten.length ≤ n := by
+    cases k with
+    | zero => simp [Conn.readsN]
+    | succ k =>
+      cases k with
+      | zero => simp [Conn.readsN, Conn.readN, hlen]; omega
+      | succ k => simp [Conn.readsN, Conn.readN, hlen]; omega
+  rw [heq] at hle
+  simp at hle
+  omega
+
+/-- the same with a later stream: 5 buffered bytes, read size 2 -/
+example : (Conn.readsN .dropRest 2 11 ⟨[1, 2, 3, 4, 5], [[6, 7, 8], [9]]⟩).flatten = [1, 2, 6, 7, 8, 9] := by
+  decide
+
 /-! ## the parser before the repair violates the property (finding F8) -/
 
 /-- Before the repair, after `IAC c` with `c` not a negotiation verb, every following non-verb byte
